@@ -1959,7 +1959,15 @@ pub fn decompress_with_limit(
             }),
 
             WriteLenBytesToEnd => generate_state!(state, 'state_machine, {
-                if out_buf.bytes_left() > 0 {
+                if out_buf.bytes_left() > 0
+                    && ((l.dist as usize > out_buf.position()
+                        && (flags & TINFL_FLAG_USING_NON_WRAPPING_OUTPUT_BUF != 0))
+                        || (l.dist as usize > out_buf.get_ref().len()))
+                {
+                    // This state can be resumed with a different output buffer than the one
+                    // the match distance was validated against, so check it again.
+                    Action::Jump(DistanceOutOfBounds)
+                } else if out_buf.bytes_left() > 0 {
                     let out_pos = out_buf.position();
                     let source_pos = out_buf.position()
                         .wrapping_sub(l.dist as usize) & out_buf_size_mask;
